@@ -6,6 +6,13 @@
 //! `first..first+count` (argv), under the interpreter seed chosen by -Zmiri-many-seeds.
 
 use metrics::{Key, Label, SharedString};
+
+// The copy-on-write type itself (private in the crate): compiled into this program from the
+// shipped source file so that Arc-backed *slices* (which no public constructor of Key builds, but
+// which the type supports and the property quantifies over) are exercised too.
+#[path = "/repo/metrics/src/cow.rs"]
+#[allow(dead_code, unused_imports)]
+mod cow;
 use std::collections::hash_map::DefaultHasher;
 use std::hash::{Hash, Hasher};
 use std::sync::mpsc;
@@ -283,13 +290,132 @@ fn program(seed: u64) {
     }
 }
 
+// ---------------------------------------------------------------------------------------------
+// Raw programs over cow::Cow<[Elem]>: elements with destructors (counted) and a Clone that can be
+// made to panic; shared slices with outstanding Weak references upgraded on another thread.
+
+static CREATED: std::sync::atomic::AtomicU64 = std::sync::atomic::AtomicU64::new(0);
+static DROPPED: std::sync::atomic::AtomicU64 = std::sync::atomic::AtomicU64::new(0);
+static CLONE_BOMB: std::sync::atomic::AtomicI64 = std::sync::atomic::AtomicI64::new(-1);
+
+#[derive(Debug, PartialEq, Eq, PartialOrd, Ord, Hash)]
+struct Elem(Box<u32>);
+impl Elem {
+    fn new(v: u32) -> Elem {
+        CREATED.fetch_add(1, std::sync::atomic::Ordering::SeqCst);
+        Elem(Box::new(v))
+    }
+}
+impl Clone for Elem {
+    fn clone(&self) -> Elem {
+        if CLONE_BOMB.fetch_sub(1, std::sync::atomic::Ordering::SeqCst) == 0 {
+            std::panic::resume_unwind(Box::new("clone bomb"));
+        }
+        Elem::new(*self.0)
+    }
+}
+impl Drop for Elem {
+    fn drop(&mut self) {
+        DROPPED.fetch_add(1, std::sync::atomic::Ordering::SeqCst);
+    }
+}
+
+fn raw_program(seed: u64) {
+    use std::sync::atomic::Ordering::SeqCst;
+    let mut r = Rng(seed.wrapping_mul(0xD1B54A32D192ED03) ^ 0x7a77);
+    let (c0, d0) = (CREATED.load(SeqCst), DROPPED.load(SeqCst));
+    CLONE_BOMB.store(-1, SeqCst);
+    let n = 1 + r.below(4) as u32;
+    // (the four kinds of raw program take turns)
+    match (seed / 5) % 4 {
+        0 => for _round in 0..8 {
+            // last strong owner + an outstanding Weak upgraded on another thread while the value is
+            // converted to an owned vector (many rounds: the window is a handful of basic blocks)
+            let n = n * 3; // a long conversion: the window between "am I the last owner" and the release
+            let a: Arc<[Elem]> = (0..n).map(Elem::new).collect::<Vec<_>>().into();
+            let w = Arc::downgrade(&a);
+            let c: cow::Cow<'static, [Elem]> = cow::Cow::from_shared(a);
+            let t = std::thread::spawn(move || {
+                let mut got = 0;
+                // a tight loop of short-lived upgrades: whenever the converting thread is pre-empted
+                // inside its window, this one is somewhere between an upgrade and its drop
+                for _ in 0..120 {
+                    if let Some(s) = w.upgrade() {
+                        got += s.iter().map(|e| *e.0 as usize).sum::<usize>();
+                        drop(s);
+                    } else {
+                        break;
+                    }
+                }
+                got
+            });
+            // let the other thread get going first
+            std::thread::yield_now();
+            let v: Vec<Elem> = c.into_owned();
+            assert_eq!(v.len(), n as usize);
+            assert!(v.iter().enumerate().all(|(i, e)| *e.0 == i as u32));
+            let got = t.join().unwrap();
+            let _ = got;
+            drop(v);
+        },
+        1 => {
+            // a Clone that panics part-way through into_owned of a shared slice that has other
+            // owners: the consumed value must still give its reference back
+            let a: Arc<[Elem]> = (0..n + 1).map(Elem::new).collect::<Vec<_>>().into();
+            let c: cow::Cow<'static, [Elem]> = cow::Cow::from_shared(a.clone());
+            assert_eq!(Arc::strong_count(&a), 2);
+            CLONE_BOMB.store(r.below(n as u64 + 1) as i64, SeqCst);
+            let res = std::panic::catch_unwind(std::panic::AssertUnwindSafe(|| c.into_owned()));
+            CLONE_BOMB.store(-1, SeqCst);
+            assert!(res.is_err());
+            assert_eq!(Arc::strong_count(&a), 1, "the consumed shared value kept its reference after a panicking element clone");
+            drop(a);
+        }
+        2 => {
+            // the same with the consumed value holding the last reference
+            let a: Arc<[Elem]> = (0..n + 1).map(Elem::new).collect::<Vec<_>>().into();
+            let w = Arc::downgrade(&a);
+            let c: cow::Cow<'static, [Elem]> = cow::Cow::from_shared(a);
+            CLONE_BOMB.store(r.below(n as u64 + 1) as i64, SeqCst);
+            let res = std::panic::catch_unwind(std::panic::AssertUnwindSafe(|| c.into_owned()));
+            CLONE_BOMB.store(-1, SeqCst);
+            if res.is_err() {
+                assert!(w.upgrade().is_none(), "the shared slice outlived its last owner");
+            }
+        }
+        _ => {
+            // owned / shared / borrowed slices cloned and dropped on two threads
+            let owned: cow::Cow<'static, [Elem]> = cow::Cow::from_owned((0..n).map(Elem::new).collect());
+            let shared: cow::Cow<'static, [Elem]> = cow::Cow::from_shared((0..n).map(Elem::new).collect::<Vec<_>>().into());
+            let (o2, s2) = (owned.clone(), shared.clone());
+            let t = std::thread::spawn(move || {
+                assert!(o2.iter().enumerate().all(|(i, e)| *e.0 == i as u32));
+                let v = s2.into_owned();
+                drop(o2);
+                v.len()
+            });
+            assert!(owned == shared);
+            drop(owned);
+            let _ = t.join().unwrap();
+            drop(shared);
+        }
+    }
+    let (c1, d1) = (CREATED.load(SeqCst), DROPPED.load(SeqCst));
+    assert_eq!(c1 - c0, d1 - d0, "elements created and destructors run differ");
+}
+
 fn main() {
     let args: Vec<String> = std::env::args().collect();
     let first: u64 = args.get(1).and_then(|s| s.parse().ok()).unwrap_or(0);
     let count: u64 = args.get(2).and_then(|s| s.parse().ok()).unwrap_or(4);
     for s in first..first + count {
         let before = HANDOVERS.load(std::sync::atomic::Ordering::Relaxed);
-        program(s);
+        if s % 5 == 4 {
+            raw_program(s);
+            HANDOVERS.fetch_add(1, std::sync::atomic::Ordering::Relaxed);
+        } else {
+            program(s);
+        }
         println!("prog {} handovers={}", s, HANDOVERS.load(std::sync::atomic::Ordering::Relaxed) - before);
     }
     println!("c14-miri ok programs={}..{}", first, first + count);
